@@ -201,7 +201,7 @@ def build_harness(cfg):
 
 
 def run_stages(pid, cfg, tier, seed, only=None, count=None):
-    work = os.path.join(VERIF, ".work", "%s-%s" % (pid, tier))
+    work = os.path.join(VERIF, ".work", "%s-%s%s" % (pid, tier, "-" + ALT if ALT else ""))
     os.makedirs(work, exist_ok=True)
     n = count if count is not None else cfg["count"][tier]
     prev = None
